@@ -122,6 +122,24 @@ def run_case(case, ctx):
             if tree.index != i:
                 bad.append((how, f"{how}() landed on {tree.index}"))
             report(bad, how, opts)
+        # one Tree object reused: forward sweep, step off the end, backward sweep, first/last on a positioned tree
+        tree = tskit.Tree(ts, **kw)
+        seq = (["first"] + ["next"] * ntrees + ["last"] + ["prev"] * ntrees + ["first", "last", "first"]
+               + (["next"] if ntrees > 1 else []) + ["last", "prev", "first"])
+        pos = -1
+        for op in seq:
+            r = getattr(tree, op)()
+            pos = {"first": 0, "last": ntrees - 1}.get(op, pos)
+            if op == "next":
+                pos = 0 if pos == -1 else (pos + 1 if pos + 1 < ntrees else -1)
+            elif op == "prev":
+                pos = ntrees - 1 if pos == -1 else pos - 1
+            ctx.count("check_tree:reused-tree")
+            if tree.index != pos:
+                ctx.violation("tree/reused/index", f"reused Tree after {op}: index {tree.index} expected {pos}", {"model": m.to_json()})
+                break
+            if pos >= 0:
+                report(check_tree(tree, m, opts, deep=False), f"reused Tree after ...{op}", opts)
     # aslist
     if rng.random() < 0.3:
         for i, tree in enumerate(ts.aslist()):
